@@ -39,6 +39,7 @@ class Report(object):
         self.t0 = time.time()
         self.quiet = quiet
         self.self_validation = None
+        self.undecided_list = []
 
     # -- declaration
     def rule(self, rid, text, min_instances=1):
@@ -71,6 +72,11 @@ class Report(object):
         """key: short stable identification of *which* violation of this rule/construct it is
         (used to match known findings; never a line number)."""
         return self._add('violation', rule, construct, where, fact, expected, config, key)
+
+    def undecided(self, rule, construct, reason, config=None):
+        """An instance the analysis could not decide.  If no violation is found elsewhere the run ends as
+        ANALYSIS-ERROR (exit 2); a violation found on an understood instance still counts."""
+        self.undecided_list.append({'rule': rule, 'construct': construct, 'reason': str(reason)[:300], 'config': config})
 
     def check(self, cond, rule, construct, where, fact, expected, config=None, key=None):
         if cond:
@@ -122,6 +128,10 @@ class Report(object):
             if len(vs) > 1:
                 lines.append('  (%d instances; first shown, config=%s)' % (len(vs), v['config']))
         wall = time.time() - self.t0
+        if self.undecided_list and not unlisted:
+            u = self.undecided_list[0]
+            raise AnalysisError('%d instance(s) could not be decided, first: %s %s (%s): %s'
+                                % (len(self.undecided_list), u['rule'], u['construct'], u['config'], u['reason']))
         if write_evidence:
             self._write_evidence(wall, len(unlisted), len(viol) - len(unlisted))
         if not self.quiet:
